@@ -249,3 +249,257 @@ Proof.
     rewrite H1, H3, H4, H5, cnt_app, cnt_single. destruct (Nat.eq_dec x y); lia.
   - rewrite H1, (held_same_all c s s' H2), H3, H4, H5, cnt_app, cnt_nil. lia.
 Qed.
+
+(* ---- variant with the shutdown check in iwtp_schedule: after a worker has left, the flag is set and the queue stays empty ---- *)
+Definition Idead (c : cfg) (s : st) : Prop :=
+  chk c = true -> forall w, w < nthreads c -> pc (th s w) = TExit \/ pc (th s w) = TDead -> shut s = true /\ queue s = [].
+
+Ltac thr_cases u :=
+  simpl in *; unfold upd in *;
+  repeat match goal with
+  | H : context [u =? ?a] |- _ => destruct (Nat.eqb_spec u a); [subst u|]
+  | |- context [u =? ?a] => destruct (Nat.eqb_spec u a); [subst u|]
+  end; simpl in *.
+
+Lemma Idead_step : forall c s t e s', Idead c s -> step c s t e = Some s' -> Idead c s'.
+Proof.
+  intros c s t e s' I H. unfold Idead in *. intros Hc w Hw Hp.
+  tcases H; thr_cases w; rw_facts;
+    try (destruct Hp as [Hp|Hp]; discriminate Hp); try lia;
+    try (destruct (I Hc w Hw Hp) as [I1 I2]); rw_facts; auto; try congruence; try discriminate;
+    try (split; auto; fail);
+    try (apply (I Hc t Hw); left; assumption).
+Qed.
+
+(* ---- pthread_join of every registered worker returns only after that worker has finished ---- *)
+Definition Ijoin (c : cfg) (s : st) : Prop :=
+  forall t, match pc (th s t) with
+            | QJoin k => forall w, w < k -> w < nthreads c -> pc (th s w) = TDead
+            | QFreed => forall w, w < nthreads c -> pc (th s w) = TDead
+            | _ => True
+            end.
+
+Lemma Ijoin_step : forall c s t e s', Ijoin c s -> step c s t e = Some s' -> Ijoin c s'.
+Proof.
+  intros c s t e s' I H. unfold Ijoin in *.
+  tcases H; intros u; assert (Iu := I u); assert (It := I t); thr_cases u; rw_facts; auto;
+    try (destruct (pc (th s u)) eqn:Eu; auto); intros w Hw1; try intros Hw2;
+    repeat match goal with |- context [w =? ?a] => destruct (Nat.eqb_spec w a); [subst w|] end; simpl;
+    try (apply Iu; assumption); try (apply It; assumption);
+    try (assert (X := Iu _ Hw1 Hw2); congruence); try (assert (X := Iu _ Hw1); congruence);
+    try (assert (X := It _ Hw1 Hw2); congruence); try (assert (X := It _ Hw1); congruence); try lia.
+  - assert (t < k \/ t = k) as [A|A] by lia; [assert (X := It t A Hw2); congruence|subst; congruence].
+  - assert (w < k \/ w = k) as [A|A] by lia; [apply It; assumption|subst; assumption].
+  - assert (A : t < k) by lia. assert (X := It t A Hw1). congruence.
+  - apply It; lia.
+Qed.
+
+Definition Idw (s : st) : Prop := disc s = [] \/ (shut s = true /\ shut_wait s = false).
+
+Lemma Idw_step : forall c s t e s', Idw s -> step c s t e = Some s' -> Idw s'.
+Proof.
+  intros c s t e s' I H. unfold Idw in *. tcases H; simpl in *; auto;
+    destruct I as [I|[I1 I2]]; try discriminate; try congruence; auto; try (right; split; congruence).
+Qed.
+
+Definition Iaccpc (s : st) : Prop :=
+  forall t, match pc (th s t) with PEnq | PSp | PSig | Ret _ true => In (tk (th s t)) (enq s) | _ => True end.
+Definition Iacc (s : st) : Prop := forall x, In x (acc s) -> In x (enq s).
+
+Lemma Iaccpc_step : forall c s t e s', Iaccpc s -> step c s t e = Some s' -> Iaccpc s'.
+Proof.
+  intros c s t e s' I H. unfold Iaccpc in *.
+  tcases H; intros u; assert (Iu := I u); assert (It := I t); thr_cases u; rw_facts; auto;
+    try (apply in_or_app; simpl; auto; fail);
+    try (destruct (pc (th s u)); auto; try (destruct sched; auto); apply in_or_app; auto).
+Qed.
+
+Lemma Iacc_step : forall c s t e s', Iaccpc s -> Iacc s -> step c s t e = Some s' -> Iacc s'.
+Proof.
+  intros c s t e s' IP I H. unfold Iacc in *.
+  tcases H; simpl in *; intros y Hy; try (apply in_or_app; left); auto;
+    try (apply in_app_or in Hy; destruct Hy as [Hy|[Hy|[]]]); auto;
+    try (subst y; assert (X := IP t); rewrite E in X; exact X).
+Qed.
+
+Record Inv (c : cfg) (s : st) : Prop := mkInv {
+  i_q : Iq s; i_lim : Ilim c s; i_wk : Iwk c s; i_used : Iused s; i_fresh : Ifresh s; i_part : Ipart c s;
+  i_dead : Idead c s; i_join : Ijoin c s; i_dw : Idw s; i_accpc : Iaccpc s; i_acc : Iacc s }.
+
+Lemma held_init : forall c, held c (init c) = [].
+Proof.
+  intros c. unfold held. assert (forall l, (forall t, In t l -> t < nthreads c) -> flat_map (held1 (init c)) l = []) as X.
+  { induction l as [|a l IH]; intros Hl; simpl; [reflexivity|]. rewrite IH by (intros; apply Hl; right; assumption).
+    unfold held1. simpl. assert (a < nthreads c) by (apply Hl; left; reflexivity).
+    destruct (Nat.ltb_spec a (nthreads c)); [reflexivity|lia]. }
+  apply X. intros t Ht. apply in_seq in Ht. lia.
+Qed.
+
+Lemma Inv_init : forall c, Inv c (init c).
+Proof.
+  intros c. constructor.
+  - reflexivity.
+  - right. simpl. lia.
+  - intros t. simpl. destruct (Nat.ltb_spec t (nthreads c)); simpl; [auto|discriminate].
+  - intros x [].
+  - intros t. unfold pre_enq. simpl. destruct (t <? nthreads c); discriminate.
+  - intros x. unfold parts. rewrite held_init. simpl. split; [reflexivity|lia].
+  - intros _ w Hw. simpl. destruct (w <? nthreads c); intros [H|H]; discriminate.
+  - intros t. simpl. destruct (t <? nthreads c); exact I.
+  - left. reflexivity.
+  - intros t. simpl. destruct (t <? nthreads c); exact I.
+  - intros x [].
+Qed.
+
+Lemma Inv_step : forall c s t e s', Inv c s -> step c s t e = Some s' -> Inv c s'.
+Proof.
+  intros c s t e s' [] H. constructor.
+  - eapply Iq_step; eauto.
+  - eapply Ilim_step; eauto.
+  - eapply Iwk_step; eauto.
+  - eapply Iused_step; eauto.
+  - eapply Ifresh_step; eauto.
+  - eapply Ipart_step; eauto.
+  - eapply Idead_step; eauto.
+  - eapply Ijoin_step; eauto.
+  - eapply Idw_step; eauto.
+  - eapply Iaccpc_step; eauto.
+  - eapply Iacc_step; eauto.
+Qed.
+
+Theorem Inv_R : forall c s, R c s -> Inv c s.
+Proof. intros c s H. eapply invariant_reachable; [apply Inv_init|apply Inv_step|exact H]. Qed.
+
+(* ---- theorems ---- *)
+Lemma cnt_le1_NoDup : forall l, (forall x, cnt_in x l <= 1) -> NoDup l.
+Proof. intros l H. apply (NoDup_count_occ Nat.eq_dec). exact H. Qed.
+
+Theorem accepted_partition : forall c s, R c s ->
+  (forall x, In x (acc s) -> In x (enq s)) /\
+  (forall x, In x (enq s) <-> In x (queue s ++ held c s ++ done s ++ disc s)) /\
+  NoDup (queue s ++ held c s ++ done s ++ disc s) /\ NoDup (enq s).
+Proof.
+  intros c s H. apply Inv_R in H. destruct H. split; [exact i_acc0|]. split; [|split].
+  - intros x. destruct (i_part0 x) as [P _]. rewrite !cnt_pos_In. fold (parts c s). lia.
+  - apply cnt_le1_NoDup. intros x. destruct (i_part0 x) as [P Q]. fold (parts c s). lia.
+  - apply cnt_le1_NoDup. intros x. destruct (i_part0 x) as [P Q]. exact Q.
+Qed.
+
+Theorem limit_respected : forall c s, R c s -> limit c > 0 -> length (queue s) <= limit c /\ qsize s = length (queue s).
+Proof. intros c s H L. apply Inv_R in H. destruct H. split; [destruct i_lim0; lia|exact i_q0]. Qed.
+
+Lemma held_all_dead : forall c s, (forall w, w < nthreads c -> pc (th s w) = TDead) -> held c s = [].
+Proof.
+  intros c s H. unfold held.
+  assert (forall l, (forall t, In t l -> t < nthreads c) -> flat_map (held1 s) l = []) as X.
+  { induction l as [|a l IH]; intros Hl; simpl; [reflexivity|]. rewrite IH by (intros; apply Hl; right; assumption).
+    unfold held1. rewrite (H a) by (apply Hl; left; reflexivity). reflexivity. }
+  apply X. intros t Ht. apply in_seq in Ht. lia.
+Qed.
+
+(* variant with the shutdown check: when iwtp_shutdown has joined every worker, every linked task has run or was dropped
+   by that (non-waiting) shutdown; a waiting shutdown drops nothing *)
+Theorem shutdown_wait_drains : forall c s t, R c s -> chk c = true -> nthreads c > 0 -> pc (th s t) = QFreed ->
+  shut s = true /\ queue s = [] /\
+  (forall x, In x (enq s) -> In x (done s) \/ In x (disc s)) /\
+  (shut_wait s = true -> disc s = [] /\ forall x, In x (acc s) -> In x (done s)).
+Proof.
+  intros c s t H Hc Hn Hp. destruct (accepted_partition c s H) as (_ & P & _). apply Inv_R in H. destruct H.
+  assert (D := i_join0 t). rewrite Hp in D.
+  destruct (i_dead0 Hc 0 Hn (or_intror (D 0 Hn))) as [A B].
+  assert (X : forall x, In x (enq s) -> In x (done s) \/ In x (disc s)).
+  { intros x Hx. apply P in Hx. rewrite B, (held_all_dead c s D) in Hx. simpl in Hx. apply in_app_or in Hx. exact Hx. }
+  split; [exact A|]. split; [exact B|]. split; [exact X|]. intros Hw.
+  assert (E : disc s = []) by (destruct i_dw0 as [E|[_ E]]; [exact E|congruence]).
+  split; [exact E|]. intros x Hx. destruct (X x (i_acc0 x Hx)) as [Y|Y]; [exact Y|]. rewrite E in Y. contradiction.
+Qed.
+
+(* the code as found (no shutdown check in iwtp_schedule): real event trace of the directed scenario
+   `tp-schedule-during-shutdown` (one worker, waiting shutdown): the call is accepted after the only worker has left *)
+Definition lost_cfg : cfg := mkcfg 1 0 0 false.
+Definition lost_trace : list (tid * ev) :=
+  [(20, ECall 3 0 true); (20, ELock); (20, EBcast 0); (20, EUnlock);
+   (0, ELock); (0, EUnlock); (0, ELock); (0, EUnlock); (0, ELock); (0, EUnlock); (0, EExit); (20, EJoin 0);
+   (10, ECall 0 0 false); (10, ELock); (10, EEnq 0); (10, ESignal 0 None); (10, EUnlock); (10, ERet 0 true);
+   (20, EFree); (20, ERet 0 false)].
+
+Theorem shutdown_wait_drains_refuted : exists s,
+  run st (step lost_cfg) (init lost_cfg) lost_trace = Some s /\ pc (th s 0) = TDead /\ pc (th s 10) = Idle /\
+  pc (th s 20) = Idle /\ shut_wait s = true /\ In 0 (acc s) /\ ~ In 0 (done s) /\ ~ In 0 (disc s) /\ queue s = [0].
+Proof.
+  eexists. split; [vm_compute; reflexivity|]. vm_compute. repeat split; auto; intuition discriminate.
+Qed.
+
+(* ---- no lost wake-up: while the queue is non-empty and the mutex is free, not every worker is parked ---- *)
+Definition Iwc (c : cfg) (s : st) : Prop := forall v, In v (waitc s) -> v < nthreads c.
+Definition allparked (c : cfg) (s : st) : Prop := forall w, w < nthreads c -> In w (waitc s).
+Definition Inlw (c : cfg) (s : st) : Prop :=
+  allparked c s ->
+  queue s = [] \/ match owner s with Some t => pc (th s t) = PEnq \/ pc (th s t) = PSp | None => False end.
+Definition Ipsig (c : cfg) (s : st) : Prop :=
+  forall t, owner s = Some t -> pc (th s t) = PSig -> ~ allparked c s.
+
+Lemma Iwc_step : forall c s t e s', Iwc c s -> step c s t e = Some s' -> Iwc c s'.
+Proof.
+  intros c s t e s' I H. unfold Iwc in *.
+  tcases H; simpl in *; intros v Hv; try contradiction; try (apply remove1_In in Hv; destruct Hv as [Hv _]); auto;
+    try (destruct Hv as [<-|Hv]; [lia|auto]).
+Qed.
+
+Lemma ap_nil : forall c s, nthreads c > 0 -> waitc s = [] -> ~ allparked c s.
+Proof. intros c s Hn Hw A. specialize (A 0 Hn). rewrite Hw in A. contradiction. Qed.
+
+Lemma ap_rm : forall c s v l, v < nthreads c -> waitc s = remove1 v l -> ~ allparked c s.
+Proof. intros c s v l Hv Hw A. specialize (A v Hv). rewrite Hw in A. apply remove1_not_In in A. exact A. Qed.
+
+Lemma Ipsig_step : forall c s t e s', nthreads c > 0 -> Iwc c s -> Iwk c s -> Ipsig c s -> step c s t e = Some s' -> Ipsig c s'.
+Proof.
+  intros c s t e s' Hn IC IW I H. unfold Ipsig in *.
+  tcases H; intros u Ho Hp; thr_cases u; rw_facts; try discriminate; try congruence;
+    try (eapply ap_nil; [exact Hn|simpl; try assumption; reflexivity]);
+    try (eapply ap_rm; [|simpl; reflexivity]; apply IC; assumption);
+    try (unfold allparked in *; simpl; eapply I; eauto; congruence).
+Qed.
+
+Lemma Inlw_step : forall c s t e s', nthreads c > 0 -> Iwc c s -> Iwk c s -> Ipsig c s -> Inlw c s ->
+  step c s t e = Some s' -> Inlw c s'.
+Proof.
+  intros c s t e s' Hn IC IW IP I H. unfold Inlw in *.
+  tcases H; intros AP;
+    try (exfalso; eapply ap_nil; [exact Hn| |exact AP]; simpl; try assumption; reflexivity);
+    try (exfalso; eapply ap_rm; [| |exact AP]; [|simpl; reflexivity]; first [apply IC; assumption | apply IW; rw_facts; reflexivity]);
+    simpl in *; try (left; assumption); try (left; reflexivity);
+    try (right; unfold upd; rewrite Nat.eqb_refl; simpl; auto; fail);
+    try (exfalso; eapply IP; eauto; fail);
+    unfold allparked in *; simpl in *; specialize (I AP); unfold upd; rw_facts; simpl in *;
+    repeat match goal with
+    | |- context [match owner ?z with _ => _ end] => destruct (owner z) eqn:?
+    | H : context [?a =? ?b] |- _ => destruct (Nat.eqb_spec a b); subst
+    | |- context [?a =? ?b] => destruct (Nat.eqb_spec a b); subst
+    end; simpl in *; rw_facts; auto;
+    try (destruct I as [I|[I|I]]; try discriminate I; auto; congruence);
+    try (destruct I as [I|[]]; left; exact I).
+Qed.
+
+Theorem no_lost_wakeup : forall c s, nthreads c > 0 -> R c s -> owner s = None -> queue s <> [] ->
+  exists w, w < nthreads c /\ ~ In w (waitc s).
+Proof.
+  intros c s Hn H Ho Hq.
+  assert (X : Iwc c s /\ Iwk c s /\ Ipsig c s /\ Inlw c s).
+  { eapply (invariant_reachable st (step c) (fun s => Iwc c s /\ Iwk c s /\ Ipsig c s /\ Inlw c s)); [| |exact H].
+    - split; [intros v []|]. split; [apply Inv_init|]. split; [intros t Ht; discriminate Ht|].
+      intros A. left. reflexivity.
+    - intros s0 t e s1 (A & B & C & D) Hs. split; [eapply Iwc_step; eauto|]. split; [eapply Iwk_step; eauto|].
+      split; [eapply Ipsig_step; eauto|eapply Inlw_step; eauto]. }
+  destruct X as (_ & _ & _ & I).
+  (* not all parked, by contradiction on the decidable finite search *)
+  assert (D : forall n, (forall w, w < n -> In w (waitc s)) \/ exists w, w < n /\ ~ In w (waitc s)).
+  { induction n as [|n [IH|[w [Hw1 Hw2]]]].
+    - left. intros w Hw. lia.
+    - destruct (in_dec Nat.eq_dec n (waitc s)) as [Hin|Hnin].
+      + left. intros w Hw. destruct (Nat.eq_dec w n) as [->|Ne]; [exact Hin|apply IH; lia].
+      + right. exists n. split; [lia|exact Hnin].
+    - right. exists w. split; [lia|exact Hw2]. }
+  destruct (D (nthreads c)) as [A|E]; [|exact E].
+  exfalso. destruct (I A) as [Q|Q]; [contradiction|]. rewrite Ho in Q. exact Q.
+Qed.
